@@ -84,6 +84,18 @@ def attr_design(a, name, tprefix, types):
         att["type"] = {"kind": "map", "key": {"kind": "string"}, "elem": e}
         if contval:
             att["val"] = contval
+    elif nest in ("alias_elem", "alias_mapval"):
+        # a NAMED collection: Type("M1A1List", ArrayOf(K)) / Type("M1A1Map", MapOf(String, K)) used as the attribute's type
+        e = dict(prim)
+        if leafval:
+            e["val"] = leafval
+        tn = tprefix + ("List" if nest == "alias_elem" else "Map")
+        t = {"name": tn, "kind": "array" if nest == "alias_elem" else "map",
+             "base": {"kind": "array", "elem": e} if nest == "alias_elem" else {"kind": "map", "key": {"kind": "string"}, "elem": e}}
+        if contval:
+            t["val"] = contval
+        types.append(t)
+        att["type"] = {"kind": "user", "ref": tn}
     elif nest == "mapval_elem":
         e = dict(prim)
         if leafval:
@@ -161,7 +173,7 @@ def default_of(a):
         d = V(k, 3, "half")
     else:
         d = {"bool": V("bool", 1), "string": V("string", 3)}.get(k)
-    if d is not None and a["nest"] in ("elem", "mapval"):
+    if d is not None and a["nest"] in ("elem", "mapval", "alias_elem", "alias_mapval"):
         d = dict(d, cn=2)
     return d
 
@@ -266,11 +278,11 @@ def concrete(a, v):
         return {"$map": m}
     if nest == "nested":
         return {"v": leaf}
-    if nest == "elem":
+    if nest in ("elem", "alias_elem"):
         return [filler(a)] * (cn - 1) + [leaf] if cn >= 1 else []
     if nest == "mapkey":
         return {"$map": {keystr(leaf): 7}} if cn >= 1 else {"$map": {}}
-    if nest in ("mapval", "mapparams"):
+    if nest in ("mapval", "mapparams", "alias_mapval"):
         m = {}
         for i in range(cn - 1):
             m["k%d" % (i + 1)] = filler(a)
@@ -500,15 +512,45 @@ def shape_key(v):
     return core.canon(k)
 
 
+def struct_sig(a, name):
+    """Structure of one attribute as the OpenAPI 3 builder hashes it: primitive type names, arrays, maps, objects with their
+    attribute names and required sets; user types are transparent; validations, defaults and type names do not count.
+    Computed from the very design attr_design produces."""
+    types = []
+    att = attr_design(a, name, "S", types)
+    tmap = {t["name"]: t for t in types}
+
+    def obj(attrs):
+        return "obj{" + ",".join(sorted("%s:%s%s" % (x["name"], sig(x["type"]), "!" if x.get("required") else "") for x in attrs)) + "}"
+
+    def sig(t):
+        k = t["kind"]
+        if k == "user":
+            u = tmap.get(t["ref"])
+            if u is None:
+                return "user:" + t["ref"]
+            if u.get("base") is not None and u["kind"] in ("alias", "array", "map"):
+                return sig(u["base"])
+            return obj(u.get("attrs") or [])
+        if k == "array":
+            return "[" + sig(t["elem"]) + "]"
+        if k == "map":
+            return "{" + sig(t["key"]) + ":" + sig(t["elem"]) + "}"
+        if k == "object":
+            return obj(t.get("attrs") or [])
+        return k
+    return sig(att["type"])
+
+
 def body_struct_keys(sh):
     """[(structure, validations)] of the request and response body types of a method shape, structure as the OpenAPI 3
-    builder hashes it (attribute names, primitive types, nesting, required set; aliases are transparent)."""
+    builder hashes it (see struct_sig)."""
     out = []
     for attrs, pfx in ((sh["pa"], "a"), (sh["ra"], "r")):
-        b = [(i, a) for i, a in enumerate(attrs) if a["loc"] == "body"]
+        b = [(i, a) for i, a in enumerate(attrs) if a["loc"] == "body" and a["nest"] not in WHOLE]
         if b:
-            out.append((tuple((pfx + str(i + 1), a["kind"], "direct" if a["nest"] in ("direct", "alias") else a["nest"], a["mode"] == "required") for i, a in b),
-                        tuple((a["nest"], a["rule"], a["mode"]) for i, a in b)))
+            out.append((tuple((pfx + str(i + 1), struct_sig(a, pfx + str(i + 1)), a["mode"] == "required") for i, a in b),
+                        tuple(core.canon(a) for i, a in b)))
     return out
 
 
